@@ -11,9 +11,9 @@ TITLE = "An invalid expression makes one node optional and never aborts validati
 ENGINE = "e1-bounded-enumeration"
 
 INVALID = ["Muss [1] O [501]", "X [501] X [901]", "Muss ([1] U [2]) O [501]", "Muss [2] O [501] Kann [3]", "Soll [3] Kann [2] X [502]",
-           "Muss ([501] U [502]) O [2]", "Kann [501][902] X [1]"]
+           "Muss ([501] U [502]) O [2]", "Kann [501][902] X [1]", "Muss [2][901] O [501]", "Soll [3] U ([501] X [2][901])"]
 BASE_LABELS = ["Muss [1]", "Kann [1]", "Muss [2]"]
-BOUNDS = {"quick": {"nodes": 4, "cers": 2, "invalid": 7}, "thorough": {"nodes": 5, "cers": 3, "invalid": 7}}
+BOUNDS = {"quick": {"nodes": 4, "cers": 2, "invalid": 9}, "thorough": {"nodes": 5, "cers": 3, "invalid": 9}}
 
 
 def describe(tier):
